@@ -1718,6 +1718,24 @@ func exSpellingVariants(r *rng, g *exGraph) []*exInput {
 			out = append(out, in2)
 		}
 	}
+	// a root location written with a trailing fragment that happens to be the pointer of something the element refers to (the
+	// fragment of a location is irrelevant, whatever it says)
+	for _, ec := range exElementCases(g) {
+		if ec.Form != "ref" || len(out) > 14 {
+			continue
+		}
+		var el struct {
+			Ref string `json:"$ref"`
+		}
+		if json.Unmarshal(ec.Element, &el) != nil || !strings.HasPrefix(el.Ref, "#/") {
+			continue
+		}
+		in3 := exInputOf(g)
+		in3.Spelling = g.Root + el.Ref // (the fragment as a reference writes it: escaped where a URL needs it)
+		in3.Op, in3.Element, in3.Entry, in3.Pointer = ec.Op, ec.Element, "base_path", ec.Pointer
+		in3.Opts = &exOpts{Abs: r.chance(1, 2)}
+		out = append(out, in3)
+	}
 	return out
 }
 
